@@ -14,6 +14,9 @@ PROP = {
         {"name": "ato_empty", "quick": 300000, "thorough": 3000000, "maxlen": 24},
         {"name": "libc_itoa", "quick": 1500000, "thorough": 10000000, "maxlen": 32},
         {"name": "dprint", "quick": 1500000, "thorough": 10000000, "maxlen": 32},
+        {"name": "dprint_sparse", "quick": 400000, "thorough": 4000000, "maxlen": 48},
+        {"name": "toa_sparse", "quick": 300000, "thorough": 3000000, "maxlen": 48},
+        {"name": "ato_sparse", "quick": 300000, "thorough": 3000000, "maxlen": 64},
         {"name": "dprint_buf", "quick": 300000, "thorough": 3000000, "maxlen": 32},
     ],
     "fuzz": [{"name": "ato", "secs": 45, "maxlen": 40}, {"name": "toa", "secs": 30, "maxlen": 32}],
